@@ -304,6 +304,32 @@ func ruleR08(c *Ctx) {
 						found = true
 						return false
 					}
+					// a thin wrapper of rangeScan (rangeScanSameKeys(root, lo, hi, restore)): its
+					// parameters stand for the bounds
+					if cu := m.calleeUnit(call); cu != nil && cu.Lit == nil && cu.Recv == "" {
+						if inner, ok := ast.Unparen(simpleReturnExpr(cu)).(*ast.CallExpr); ok && m.calleeName(inner) == "rangeScan" && len(inner.Args) >= 5 {
+							mp := map[int]int{}
+							for i := 1; i <= 4; i++ {
+								if id, ok := ast.Unparen(inner.Args[i]).(*ast.Ident); ok {
+									if pi := m.paramIndex(cu, id); pi >= 0 && pi < len(call.Args) {
+										mp[i] = pi
+									}
+								}
+							}
+							if len(mp) == 4 {
+								sig := func(i int) string {
+									if v := identVar(info, call.Args[mp[i]]); v != nil {
+										return c.keySignature(u, v, cs)
+									}
+									return "?"
+								}
+								roleA["Range.lower"], roleA["Range.upper"] = sig(1), sig(2)
+								roleB["Range.lower"], roleB["Range.upper"] = sig(3), sig(4)
+								found = true
+								return false
+							}
+						}
+					}
 					if cu := m.calleeUnit(call); cu != nil && cu.Lit == nil && cu != u && cu.Recv == ru.Recv && depth < 2 {
 						if scanIn(cu, depth+1) {
 							found = true
@@ -551,4 +577,13 @@ func ruleR08(c *Ctx) {
 	c.r.floor("R08", 12, "normalisation checks", "C01")
 	c.r.floor("R16", 8, "leaf role checks", "C08")
 	c.r.floor("R18", 3, "codec plumbing checks", "C09")
+}
+
+// simpleReturnExpr: the expression of a function whose body is a single return statement (nil
+// expression otherwise).
+func simpleReturnExpr(u *FuncUnit) ast.Expr {
+	if e := simpleReturn(u); e != nil {
+		return e
+	}
+	return &ast.BadExpr{}
 }
